@@ -25,13 +25,13 @@ CLAIMED = {
             "Framing state is carried across units and messages; the simulator drives seeded messages of 1..6 units over scripted handlers (queries emitting 0..4 "
             "items of every result type, succeeding, failing silently, failing after emitting, raising errors mid-unit; commands), any segmentation, after any "
             "previous message, with write() returning short/0/-1 and flush() failing. Captured bytes and flush count must equal one member of the acceptable set "
-            "computed from independently encoded payloads (table A.2, both readings of the open rows); handlers may relay a message to a second context, whose own response must be framed too. Exploration level.",
+            "computed from independently encoded payloads (table A.2, both readings of the open rows); handlers may relay a message to a second context, whose own response must be framed too; default build and the build whose response terminator is a run-time setting (CRLF, LF, CR). Exploration level.",
             "A query whose handler succeeded with zero items may or may not count as a response unit (both accepted). Float/double digits come from the stand-alone "
             "formatter (C16's subject).",
             "deterministic simulation: seeded handler-failure and transport-fault sequences, acceptable-set framing model"),
     "C17": ("DESIGN.md §4 C17",
             "Blocks are produced by a sequence of calls sharing state; seeded handler scripts emit arrays of all ten element types in NORMAL/SWAPPED/ASCII (source arrays at element-aligned, not only allocator-aligned addresses), one-shot "
-            "and streamed blocks with every split of header/data calls (zero-length pieces, incomplete, over-length at any point), header-only calls up to 10^9-1, "
+            "and streamed blocks with every split of header/data calls (zero-length pieces, incomplete, over-length at any point), header-only calls up to 10^9-1, a second context answering with arrays of its own from inside the write callback, "
             "items after complete/incomplete blocks, under transport faults. Every call's bytes are compared with an independent shift-based encoder; over-length "
             "data must be refused with an error. Exploration level.",
             "Host is little-endian: 'whatever the host byte order' is exercised for one host order only.",
